@@ -163,16 +163,45 @@ func BoolT(b bool) *Term {
 	return tFalse
 }
 
-// Var creates (or finds) a bit-vector variable. A range [lo,hi] (unsigned) may
-// be registered; the caller is responsible for asserting it in the solver.
-func Var(name string, w int) *Term { return mk(OpVar, w, 0, name) }
+// Var creates (or finds) a bit-vector variable. VarRange additionally records an
+// unsigned range [lo,hi] that the caller asserts in the solver; the range is
+// part of the term's identity (the same variable name may be declared with a
+// different range on another path, and interval folding must only ever use the
+// range that is asserted on the path the term lives on).
+func Var(name string, w int) *Term { return mkVar(name, w, 0, mask(w)) }
 func VarRange(name string, w int, lo, hi uint64) *Term {
-	if _, ok := varRanges[name]; !ok {
-		varRanges[name] = [2]uint64{lo, hi}
-	}
-	return mk(OpVar, w, 0, name)
+	return mkVar(name, w, lo, hi)
 }
-func BoolVar(name string) *Term { return mk(OpVar, 0, 0, name) }
+
+func mkVar(name string, w int, lo, hi uint64) *Term {
+	k := "V" + strconv.Itoa(w) + "|" + name + "|" + strconv.FormatUint(lo, 36) + "|" + strconv.FormatUint(hi, 36)
+	if t, ok := termTab[k]; ok {
+		return t
+	}
+	t := &Term{op: OpVar, w: w, name: name, id: len(termList), size: 1, lo: lo, hi: hi}
+	if strings.HasPrefix(name, "clock.") {
+		t.dep |= 1
+	}
+	if strings.HasPrefix(name, "appendcap") {
+		t.dep |= 2
+	}
+	if strings.HasPrefix(name, "rand.") {
+		t.dep |= 4
+	}
+	termTab[k] = t
+	termList = append(termList, t)
+	return t
+}
+func BoolVar(name string) *Term {
+	k := "VB|" + name
+	if t, ok := termTab[k]; ok {
+		return t
+	}
+	t := &Term{op: OpVar, w: 0, name: name, id: len(termList), size: 1, lo: 0, hi: 1}
+	termTab[k] = t
+	termList = append(termList, t)
+	return t
+}
 
 func computeRange(t *Term) (uint64, uint64) {
 	if t.w == 0 {
@@ -182,10 +211,6 @@ func computeRange(t *Term) (uint64, uint64) {
 	switch t.op {
 	case OpConst:
 		return t.c, t.c
-	case OpVar:
-		if r, ok := varRanges[t.name]; ok {
-			return r[0], r[1]
-		}
 	case OpSel:
 		return 0, 255
 	case OpAdd:
